@@ -71,7 +71,19 @@ func (s *fakeStream) RecvMsg(m interface{}) error     { return errors.New("not u
 
 var _ net.Addr = fakeAddr("")
 
+// fullStream gives realStream the remaining methods of grpc.ServerStream.
+type fullStream struct{ *realStream }
+
+func (s *fullStream) SetHeader(metadata.MD) error  { return nil }
+func (s *fullStream) SendHeader(metadata.MD) error { return nil }
+func (s *fullStream) SetTrailer(metadata.MD)       {}
+func (s *fullStream) SendMsg(m interface{}) error  { return errors.New("not used") }
+func (s *fullStream) RecvMsg(m interface{}) error  { return errors.New("not used") }
+
 func c26run(c *runner.Ctx) runner.Result {
+	if c.Case%6 == 5 {
+		return c26realRun(c)
+	}
 	var res runner.Result
 	ms.Quiet()
 	r := c.R("cfg")
